@@ -29,6 +29,15 @@ fn escape_go_string(value: &str) -> String {
     escaped
 }
 
+fn go_float_literal(value: f64) -> String {
+    let text = value.to_string();
+    if !value.is_finite() || text.contains(['.', 'e', 'E']) {
+        text
+    } else {
+        format!("{}.0", text)
+    }
+}
+
 fn go_type_name(ty: &GoType) -> String {
     match ty {
         GoType::TVoid => "void".to_string(),
@@ -679,7 +688,7 @@ impl Expr {
             Expr::Var { name, ty: _ } => RcDoc::text(name),
             Expr::Bool { value, ty: _ } => RcDoc::text(if *value { "true" } else { "false" }),
             Expr::Int { value, ty: _ } => RcDoc::as_string(value),
-            Expr::Float { value, ty: _ } => RcDoc::as_string(value),
+            Expr::Float { value, ty: _ } => RcDoc::text(go_float_literal(*value)),
             Expr::String { value, ty: _ } => RcDoc::text("\"")
                 .append(RcDoc::text(escape_go_string(value)))
                 .append(RcDoc::text("\"")),
